@@ -120,7 +120,9 @@ func execC17(r *kernel.Run, s C17Spec) {
 		bst := keyproof.NewValidKeyProofStructure(n, bb)
 		var wire []byte
 		r.Eval(1)
+		mult := []int{0, 1, 2}[hr.IntN(3)]
 		if pm := guard(func() {
+			keyproof.VerifDegenerateMultiple = mult
 			pr := keyproof.VerifBuildProofDegenerateCommitment(&bst, pp, qp)
 			wire, _ = json.Marshal(pr)
 		}); pm != "" || wire == nil {
@@ -129,7 +131,7 @@ func execC17(r *kernel.Run, s C17Spec) {
 		}
 		vst := keyproof.NewValidKeyProofStructure(n, bb)
 		if ok, _ := verify(wire, &vst); ok {
-			r.Violate("C17:bad-key-accepted", map[string]any{"bad": s.Bad}, "a key proof verifies for a base list containing %v, which has Jacobi symbol -1 modulo n (no square): the proof carries the degenerate Pedersen commitment 0", bad)
+			r.Violate("C17:bad-key-accepted", map[string]any{"bad": s.Bad, "multiple": mult}, "a key proof verifies for a base list containing %v, which has Jacobi symbol -1 modulo n (no square): the proof carries the degenerate Pedersen commitment %d * group prime", bad, mult)
 		} else {
 			r.Probe("bad-key-proof-rejected")
 		}
@@ -473,6 +475,42 @@ func execC17(r *kernel.Run, s C17Spec) {
 		r.Probe("tampered-kind:" + kind)
 		r.Distinct(fmt.Sprintf("bits=%d leaf-kind %s", s.PrimeBits, kind))
 		deliver(id, "tamper-field", kernel.Encode(t2), &st)
+	}
+	// every good-key run ends with the Byzantine prover on a small modulus of its own (cheap at 48-bit primes):
+	// a base of Jacobi symbol -1, commitment to n = 0, P or 2P
+	if wanted(s.OnlyFault, "byzantine:degenerate-commitment") {
+		var sp, sq *big.Int
+		for {
+			sp, sq = genSafePrime(48), genSafePrime(48)
+			if sp.Cmp(sq) != 0 && keyproof.CanProve(new(big.Int).Rsh(sp, 1), new(big.Int).Rsh(sq, 1)) {
+				break
+			}
+		}
+		sn := new(big.Int).Mul(sp, sq)
+		bad := big.NewInt(2)
+		for mbig.Jacobi(bad.Go(), sn.Go()) != -1 {
+			bad.Add(bad, big.NewInt(1))
+		}
+		bb := []*big.Int{big.NewInt(49), bad}
+		mult := []int{0, 1, 2}[hr.IntN(3)]
+		bst := keyproof.NewValidKeyProofStructure(sn, bb)
+		var fw []byte
+		r.Fault("bad-key-prover")
+		r.Eval(1)
+		if pm := guard(func() {
+			keyproof.VerifDegenerateMultiple = mult
+			pr := keyproof.VerifBuildProofDegenerateCommitment(&bst, new(big.Int).Rsh(sp, 1), new(big.Int).Rsh(sq, 1))
+			fw, _ = json.Marshal(pr)
+		}); pm != "" || fw == nil {
+			r.Probe("bad-key-prover-refused")
+		} else {
+			vst := keyproof.NewValidKeyProofStructure(sn, bb)
+			if ok, _ := verify(fw, &vst); ok {
+				r.Violate("C17:bad-key-accepted", map[string]any{"bad": 5, "multiple": mult, "fault": "byzantine:degenerate-commitment"}, "a key proof verifies for a base list containing %v, which has Jacobi symbol -1 modulo n (no square): the proof carries the degenerate Pedersen commitment %d * group prime", bad, mult)
+			} else {
+				r.Probe("bad-key-proof-rejected")
+			}
+		}
 	}
 	r.Sample(map[string]any{"spec": s, "artefact_bytes": len(wire), "leaf_kinds": len(kinds)})
 }
